@@ -10,15 +10,26 @@ starts in (at period 0); the node's own events in `projFull P n r σ₀ es`.
   every vote delivered up to and including the event that triggers the vote precedes it in the projection).
 * `player_okSee` (FULL): every `see` event has a next quorum before it (`RSee`).
 * `player_enterGrow` (FULL): every `enter` is the node's own and to a larger period (`REnterGrow`).
-* `player_votes_justified_partial`: `okEv true Pabs pre e` for every own vote, `see` and `enter` event.
+* `player_okCommit` (FULL): every `commit` event has a cert quorum before it (`RCommit`; `commitOf` projects `ensure` actions
+  whose certificate value is ≠ ⊥ — a ⊥ certificate is excluded by `voteTrackerContract` but the action list does not say so).
+* `player_votes_justified_partial` / `player_votes_justified`: `okEv true Pabs pre e` for every own vote, `see`, `enter` and
+  `commit` event.
+* `prevTracks_of_steps` / `prevTracks_fresh`: the cache-tracking hypothesis `prevTracksFrom` follows from the one-`handle`
+  property `CacheStepOK` (caches of the kept periods change by `cache` operations only; the period-(2^64−1) tracker read at
+  period 0 is empty) — the fold of the projected `see` events then IS the concrete cache (`TrackC`).
+* `players_wf` / `players_agree`: honest PlayerM nodes + one global history consistent with their projections
+  (`Lemmas/PlayerAttestGlobal`: `Consistent`, executable `consistentB`) ⇒ `WF true Pabs h` ⇒ (`Props.C01.commit_unique`) all
+  honest commits of the round carry one value.  Example: three honest PlayerM nodes and an equivocating Byzantine sender.
 Hypotheses: `EnvOK`, `PeriodsFit` (C01Player); `Pabs` fits the delivered votes (`eventFit`, executable: senders are nodes of
 `Pabs` with their credential weights, no delivered vote under the node's own name; `Pabs.T` is positive and below every step
 threshold).  NAMED hypotheses evaluated on the example runs (`by decide`) but not proved in general:
-`prevTracksFrom` (at every own vote the abstract cache of p−1 — the fold of the projected `see` events — is what the tree has
-cached) and `hcause` (`REnterCause` for the cause `causeOf` picks).  Not covered: `commit` events (see `commit_certQ`), later
-rounds of the same run (votes of round r+1 can be delivered while the node is still in round r), crash events.
+`CacheStepOK` for the records of the run (one-`handle`, concrete; replaces `prevTracksFrom`) and `hcause` (`REnterCause` for
+the cause `causeOf` picks).  Not covered: later rounds of the same run (votes of round r+1 can be delivered while the node is
+still in round r), crash events (the global lift `okEv_agrees` assumes no crash of the node).
 -/
 import AlgoVerif.Props.C01Player
+import AlgoVerif.Props.C01
+import AlgoVerif.Lemmas.PlayerAttestGlobal
 namespace Props.C01PlayerWF
 open AlgoVerif.Model AlgoVerif.Model.Player AlgoVerif.Lemmas.Player AlgoVerif.Lemmas.PlayerAttest Props.C01Player
 open AlgoVerif.Model.VoteTracker (Vote)
@@ -909,10 +920,83 @@ theorem player_enterGrow (P : Params) (base : Nat → Nat → Nat → Vote → B
 
 /-! ### assembled -/
 
-/-- **player_votes_justified_partial.**  Every event of node `n` in `projFull` — own votes, `see`, `enter` — is allowed by the
-abstract local rules w.r.t. the history before it (`okEv true Pabs pre e`).  Events of other nodes (delivered votes) are not
-the node's to justify.  NOT covered: `commit` events (`RCommit` is `Props.C01Player.commit_certQ`, which needs the
-certificate's value ≠ ⊥ — true of the code, not yet exposed by C03's `ensure_cert_valid`).  Named hypotheses that are
+theorem mem_commitOf' {n r : Nat} {acts : List Action} {e : AgreementAbs.Ev} (h : e ∈ acts.flatMap (commitOf n r)) :
+    ∃ pay c, Action.ensure pay c ∈ acts ∧ c.round = r ∧ c.proposal ≠ 0 ∧ e = .commit n c.period c.proposal := by
+  obtain ⟨a, hin, ha⟩ := List.mem_flatMap.mp h
+  cases a <;> simp only [commitOf] at ha <;> try (cases ha)
+  split at ha
+  · rename_i hc; exact ⟨_, _, hin, hc.1, hc.2, List.mem_singleton.mp ha⟩
+  · cases ha
+
+theorem run_snoc (P : Params) : ∀ (es₁ : List Player.Event) (σ τ σ' : State) (e : Player.Event) (as : List Action),
+    after P σ es₁ = some τ → Player.handle P τ e = .ok (σ', as) →
+    ∃ ass, Player.run P σ (es₁ ++ [e]) = .ok (σ', ass) ∧ as ∈ ass := by
+  intro es₁
+  induction es₁ with
+  | nil =>
+    intro σ τ σ' e as h1 h2
+    simp only [after, Option.some.injEq] at h1
+    subst h1
+    exact ⟨[as], by simp [Player.run, h2], List.mem_singleton.mpr rfl⟩
+  | cons e0 rest ih =>
+    intro σ τ σ' e as h1 h2
+    simp only [after] at h1
+    split at h1
+    · cases h1
+    · rename_i σ1 as1 hh
+      obtain ⟨ass, hr, hm⟩ := ih σ1 τ σ' e as h1 h2
+      exact ⟨as1 :: ass, by simp [Player.run, hh, hr], List.mem_cons_of_mem _ hm⟩
+
+/-- **player_okCommit** (`RCommit`): every `commit` event of the projection has a cert quorum for its value among the votes
+projected before it. -/
+theorem player_okCommit (P : Params) (base : Nat → Nat → Nat → Vote → Bool) (hg : GoodSpec base) (σ₀ : State) (h0 : Fresh σ₀)
+    (es : List Player.Event) (henv : EnvOK P base σ₀ es) (Pabs : AgreementAbs.Params) (n r : Nat)
+    (hthr : ∀ s, s ≠ 0 → Pabs.T ≤ stepT P s)
+    (hnodes : ∀ p s a, goodIn base es r p s a = true →
+      a.sender ∈ Pabs.nodes ∧ Pabs.w a.sender = a.weight ∧ a.sender ≠ n) :
+    ∀ post pre m p v, projFull P n r σ₀ es = post ++ AgreementAbs.Ev.commit m p v :: pre →
+      AgreementAbs.RCommit Pabs pre p v := by
+  intro post pre m p v hsplit
+  have hfl : (recs P σ₀ es).flatMap (evsOf n r) = pre.reverse ++ AgreementAbs.Ev.commit m p v :: post.reverse := by
+    have := congrArg List.reverse hsplit
+    unfold projFull at this
+    simpa [List.reverse_append] using this
+  obtain ⟨L₁, x, L₂, A, B, hrecs, hx, hpre, _⟩ := flatMap_split _ _ _ _ _ hfl
+  obtain ⟨es₁, es₂, hes, hL₁, haft, hh, _⟩ := recs_split P es σ₀ L₁ L₂ x hrecs
+  have hes' : es = (es₁ ++ [x.ev]) ++ es₂ := by rw [hes]; simp
+  have henv' : EnvOK P base σ₀ (es₁ ++ [x.ev]) := envOK_prefix (hes' ▸ henv)
+  have hmem : AgreementAbs.Ev.commit m p v ∈ evsOf n r x := by rw [hx]; simp
+  have hcm : AgreementAbs.Ev.commit m p v ∈ x.acts.flatMap (commitOf n r) := by
+    rw [evsOf_eq] at hmem; unfold headOf at hmem
+    simp only [List.mem_append] at hmem
+    rcases hmem with ((h | h) | h) | h
+    · rcases h with h | h
+      · obtain ⟨w, hw, _⟩ := mem_delivOf h; cases hw
+      · obtain ⟨q', y', hq, _⟩ := mem_seeOf' h; cases hq
+    · obtain ⟨p', c, hq⟩ := mem_enterOf h; cases hq
+    · unfold ownOf at h; obtain ⟨b, _, hb⟩ := List.mem_map.mp h; cases hb
+    · exact h
+  obtain ⟨pay, c, hin, hcr, hc0, heq⟩ := mem_commitOf' hcm
+  cases heq
+  have hnd : AgreementAbs.Ev.commit n c.period c.proposal ∉ delivOf n r x.ev := by
+    intro h; obtain ⟨w, hw, _⟩ := mem_delivOf h; cases hw
+  have hx' : delivOf n r x.ev ++ (seeOf n r x.pre.root x.post.root ++ enterOf n r x.pre x.post ++ ownOf n r x ++
+      x.acts.flatMap (commitOf n r)) = A ++ AgreementAbs.Ev.commit n c.period c.proposal :: B := by
+    rw [← hx, evsOf_eq]; unfold headOf; simp only [List.append_assoc]
+  obtain ⟨A', hA'⟩ := prefix_of_notin hx' hnd
+  have hpre' : pre = A.reverse ++ (L₁.flatMap (evsOf n r)).reverse := by
+    have := congrArg List.reverse hpre
+    rw [List.reverse_reverse, List.reverse_append] at this
+    exact this
+  have hlink := histLink_at P base σ₀ es es₁ es₂ x L₁ hes hL₁ haft Pabs n r hthr hnodes A
+    (fun e he => by rw [hA']; exact List.mem_append_left _ he)
+  rw [← hpre', ← hcr] at hlink
+  obtain ⟨ass, hrun, has⟩ := run_snoc P es₁ σ₀ x.pre x.post x.ev x.acts haft hh
+  exact commit_certQ P base hg σ₀ x.post h0 _ ass henv'.run hrun Pabs pre x.acts has pay c hin hlink hc0
+
+/-- **player_votes_justified_partial.**  Every event of node `n` in `projFull` — own votes, `see`, `enter`, `commit` — is
+allowed by the abstract local rules w.r.t. the history before it (`okEv true Pabs pre e`).  Events of other nodes (delivered
+votes) are not the node's to justify.  Named hypotheses that are
 evaluated on the example runs but NOT proved in general: `hprev` (cache tracking at own votes) and `hcause` (the cause
 `causeOf` chooses for an `enter` is justified: `REnterCause`). -/
 theorem player_votes_justified_partial (P : Params) (base : Nat → Nat → Nat → Vote → Bool) (hg : GoodSpec base) (σ₀ : State)
@@ -924,9 +1008,9 @@ theorem player_votes_justified_partial (P : Params) (base : Nat → Nat → Nat 
     (hprev : prevTracksFrom n r [] (recs P σ₀ es) = true)
     (hcause : ∀ post pre m p c, projFull P n r σ₀ es = post ++ AgreementAbs.Ev.enter m p c :: pre →
       AgreementAbs.REnterCause Pabs pre m p c) :
-    ∀ post e pre, projFull P n r σ₀ es = post ++ e :: pre → (∀ m p v, e ≠ .commit m p v) →
+    ∀ post e pre, projFull P n r σ₀ es = post ++ e :: pre →
       (∀ v, e = .vote v → v.n = n) → AgreementAbs.okEv true Pabs pre e := by
-  intro post e pre hsplit hnc hown
+  intro post e pre hsplit hown
   cases e with
   | vote v =>
     intro _
@@ -938,7 +1022,9 @@ theorem player_votes_justified_partial (P : Params) (base : Nat → Nat → Nat 
     intro _
     obtain ⟨rfl, hgrow⟩ := player_enterGrow P base hg σ₀ h0 es henv n r hr0 hp0 post pre m p c hsplit
     exact ⟨hgrow, hcause post pre m p c hsplit⟩
-  | commit m p v => exact absurd rfl (hnc m p v)
+  | commit m p v =>
+    intro _
+    exact player_okCommit P base hg σ₀ h0 es henv Pabs n r hthr hnodes post pre m p v hsplit
   | crash m => trivial
 
 /-! ### the hypotheses in executable form, and the example runs -/
@@ -1008,5 +1094,519 @@ example : AgreementAbs.wfCheck true exPabs2 (projFull exP 7 5 exInit exEvents) =
     AgreementAbs.wfCheck true exPabs2 (projFull exP 7 5 exInit dropEvents) = true := ⟨by decide, by decide⟩
 
 end Example
+
+/-! ### cache tracking: from a one-`handle` property of the tree to `prevTracksFrom` -/
+
+/-- the next-threshold cache changes by `cache` operations only: Bottom is never cleared, Proposal is only overwritten by a
+non-bottom value (`voteTrackerPeriod.handle`, case `nextThreshold`) — in particular it is not reset by garbage collection -/
+def CacheMono (old new : NextStatus) : Prop :=
+  (old.bottom = true → new.bottom = true) ∧ (new.proposal = old.proposal ∨ new.proposal ≠ 0)
+
+instance (a b : NextStatus) : Decidable (CacheMono a b) := by unfold CacheMono; infer_instance
+
+def periodsOf (root : Root) (r : Nat) : List (Nat × PeriodR) :=
+  match aget root.rounds r with
+  | some rr => rr.periods
+  | none => []
+
+/-- one record, while the player stays in round `r`: the caches of the periods `≥ Period − 1` (those the router keeps)
+change by `cache` operations only, and the tracker of period 2^64 − 1 (read at period 0) has cached nothing -/
+def CacheStepOK (r : Nat) (x : Rec) : Prop :=
+  x.pre.pl.round = r → x.post.pl.round = r →
+    (∀ kv ∈ periodsOf x.pre.root r, x.post.pl.period ≤ kv.1 + 1 →
+      CacheMono (cachedOf x.pre.root r kv.1) (cachedOf x.post.root r kv.1)) ∧
+    cachedOf x.post.root r 18446744073709551615 = {}
+
+instance (r : Nat) (x : Rec) : Decidable (CacheStepOK r x) := by unfold CacheStepOK; infer_instance
+
+theorem cachedOf_none {root : Root} {r q : Nat} (h : viewAt root r q = none) : cachedOf root r q = {} := by
+  unfold cachedOf; rw [h]; rfl
+
+theorem viewAt_periodsOf {root : Root} {r q : Nat} {vw : PView} (h : viewAt root r q = some vw) :
+    ∃ pr, (q, pr) ∈ periodsOf root r := by
+  obtain ⟨rr, pr, ⟨h1, h2⟩, _⟩ := viewAt_some h
+  exact ⟨pr, by unfold periodsOf; rw [h1]; exact aget_mem h2⟩
+
+theorem cacheMono_empty (c : NextStatus) : CacheMono {} c := by
+  refine ⟨fun h => (by cases h), ?_⟩
+  by_cases h : c.proposal = 0
+  · exact Or.inl h
+  · exact Or.inr h
+
+theorem cacheStep_all {r : Nat} {x : Rec} (h : CacheStepOK r x) (h1 : x.pre.pl.round = r) (h2 : x.post.pl.round = r)
+    (q : Nat) (hq : x.post.pl.period ≤ q + 1) : CacheMono (cachedOf x.pre.root r q) (cachedOf x.post.root r q) := by
+  cases hv : viewAt x.pre.root r q with
+  | none => rw [cachedOf_none hv]; exact cacheMono_empty _
+  | some vw =>
+    obtain ⟨pr, hm⟩ := viewAt_periodsOf hv
+    exact (h h1 h2).1 (q, pr) hm hq
+
+/-! #### the abstract cache along a list of events -/
+
+def cacheStep (n q : Nat) (c : AgreementAbs.Cache) : AgreementAbs.Ev → AgreementAbs.Cache
+  | .see m p y => if m = n ∧ p = q then c.see y else c
+  | _ => c
+
+theorem stepN_cache {n q : Nat} {s : AgreementAbs.NState} {e : AgreementAbs.Ev} (h : e ≠ .crash n) :
+    (AgreementAbs.stepN n s e).cur.cache q = cacheStep n q (s.cur.cache q) e := by
+  cases e with
+  | vote v => simp only [AgreementAbs.stepN, cacheStep]; split <;> rfl
+  | see m p y =>
+    simp only [AgreementAbs.stepN, cacheStep]
+    by_cases hm : m = n
+    · rw [if_pos hm]
+      simp only [AgreementAbs.Local.see]
+      by_cases hp : q = p
+      · subst hp; rw [if_pos rfl, if_pos ⟨hm, rfl⟩]
+      · rw [if_neg hp, if_neg (fun hc => hp hc.2.symm)]
+    · rw [if_neg hm, if_neg (fun hc => hm hc.1)]
+  | enter m p c => simp only [AgreementAbs.stepN, cacheStep]; split <;> rfl
+  | commit m p v => rfl
+  | crash m =>
+    simp only [AgreementAbs.stepN, cacheStep]
+    rw [if_neg (fun hm => h (by rw [hm]))]
+
+theorem foldN_cache {n q : Nat} : ∀ (A : List AgreementAbs.Ev) (s : AgreementAbs.NState), (∀ e ∈ A, e ≠ .crash n) →
+    (foldN n s A).cur.cache q = A.foldl (cacheStep n q) (s.cur.cache q) := by
+  intro A
+  induction A with
+  | nil => intro s _; rfl
+  | cons e rest ih =>
+    intro s h
+    show (foldN n (AgreementAbs.stepN n s e) rest).cur.cache q = _
+    rw [ih _ (fun x hx => h x (List.mem_cons_of_mem _ hx)), stepN_cache (h e List.mem_cons_self)]
+    rfl
+
+theorem foldl_cacheStep_id {n q : Nat} : ∀ (A : List AgreementAbs.Ev) (c : AgreementAbs.Cache),
+    (∀ e ∈ A, ∀ m p y, e ≠ .see m p y) → A.foldl (cacheStep n q) c = c := by
+  intro A
+  induction A with
+  | nil => intro c _; rfl
+  | cons e rest ih =>
+    intro c h
+    have he := h e List.mem_cons_self
+    have : cacheStep n q c e = c := by
+      cases e with
+      | see m p y => exact absurd rfl (he m p y)
+      | _ => rfl
+    rw [List.foldl_cons, this]
+    exact ih c (fun x hx => h x (List.mem_cons_of_mem _ hx))
+
+/-- the `see` events `seeOf` emits for one period key -/
+def seeEvs (n r : Nat) (pre post : Root) (k : Nat) : List AgreementAbs.Ev :=
+  (if !(cachedOf pre r k).bottom && (cachedOf post r k).bottom then [AgreementAbs.Ev.see n k none] else []) ++
+  (if (cachedOf post r k).proposal != (cachedOf pre r k).proposal && (cachedOf post r k).proposal != 0 then
+    [AgreementAbs.Ev.see n k (some (cachedOf post r k).proposal)] else [])
+
+theorem seeOf_eq (n r : Nat) (pre post : Root) :
+    seeOf n r pre post = (periodsOf post r).flatMap (fun kv => seeEvs n r pre post kv.1) := by
+  unfold seeOf periodsOf
+  cases aget post.rounds r <;> rfl
+
+theorem seeEvs_other {n r q k : Nat} {pre post : Root} (hk : k ≠ q) (c : AgreementAbs.Cache) :
+    (seeEvs n r pre post k).foldl (cacheStep n q) c = c := by
+  unfold seeEvs
+  split <;> split <;> simp [cacheStep, hk]
+
+theorem seeEvs_old {n r q : Nat} {pre post : Root} (hm : CacheMono (cachedOf pre r q) (cachedOf post r q)) :
+    (seeEvs n r pre post q).foldl (cacheStep n q) (absCache (cachedOf pre r q)) = absCache (cachedOf post r q) := by
+  obtain ⟨m1, m2⟩ := hm
+  unfold seeEvs absCache
+  generalize cachedOf pre r q = o at *
+  generalize cachedOf post r q = w at *
+  obtain ⟨ob, op⟩ := o
+  obtain ⟨wb, wp⟩ := w
+  simp only at m1 m2
+  cases ob <;> cases wb <;> (try (exfalso; exact absurd (m1 rfl) (by decide))) <;> simp only [Bool.not_true, Bool.not_false, Bool.and_true,
+    Bool.and_false, if_true, List.nil_append, List.cons_append] at * <;>
+  (by_cases h1 : wp = op
+   · subst h1; simp [cacheStep, AgreementAbs.Cache.see]
+   · by_cases h2 : wp = 0
+     · rcases m2 with m2 | m2
+       · exact absurd m2 h1
+       · exact absurd h2 m2
+     · simp [cacheStep, AgreementAbs.Cache.see, h1, h2, absVal])
+
+theorem seeEvs_new {n r q : Nat} {pre post : Root} :
+    (seeEvs n r pre post q).foldl (cacheStep n q) (absCache (cachedOf post r q)) = absCache (cachedOf post r q) := by
+  unfold seeEvs absCache
+  generalize cachedOf pre r q = o at *
+  generalize cachedOf post r q = w at *
+  obtain ⟨ob, op⟩ := o
+  obtain ⟨wb, wp⟩ := w
+  cases ob <;> cases wb <;> simp only [Bool.not_true, Bool.not_false, Bool.and_true,
+    Bool.and_false, if_true, List.nil_append, List.cons_append] <;>
+  (by_cases h1 : wp = op
+   · subst h1; simp [cacheStep, AgreementAbs.Cache.see]
+   · by_cases h2 : wp = 0
+     · subst h2; simp [cacheStep, AgreementAbs.Cache.see]
+     · simp [cacheStep, AgreementAbs.Cache.see, h1, h2, absVal])
+
+theorem sees_new {n r q : Nat} {pre post : Root} : ∀ (l : List (Nat × PeriodR)),
+    (l.flatMap (fun kv => seeEvs n r pre post kv.1)).foldl (cacheStep n q) (absCache (cachedOf post r q)) =
+      absCache (cachedOf post r q) := by
+  intro l
+  induction l with
+  | nil => rfl
+  | cons kv rest ih =>
+    rw [List.flatMap_cons, List.foldl_append]
+    by_cases hk : kv.1 = q
+    · rw [hk, seeEvs_new]; exact ih
+    · rw [seeEvs_other hk]; exact ih
+
+theorem sees_old {n r q : Nat} {pre post : Root} (hm : CacheMono (cachedOf pre r q) (cachedOf post r q)) :
+    ∀ (l : List (Nat × PeriodR)), (∃ kv ∈ l, kv.1 = q) →
+    (l.flatMap (fun kv => seeEvs n r pre post kv.1)).foldl (cacheStep n q) (absCache (cachedOf pre r q)) =
+      absCache (cachedOf post r q) := by
+  intro l
+  induction l with
+  | nil => rintro ⟨kv, hkv, _⟩; cases hkv
+  | cons kv rest ih =>
+    intro hex
+    rw [List.flatMap_cons, List.foldl_append]
+    by_cases hk : kv.1 = q
+    · rw [hk, seeEvs_old hm]; exact sees_new rest
+    · rw [seeEvs_other hk]
+      apply ih
+      obtain ⟨kv', hkv', hq⟩ := hex
+      rcases List.mem_cons.mp hkv' with rfl | hin
+      · exact absurd hq hk
+      · exact ⟨kv', hin, hq⟩
+
+theorem aget_none_not_mem {α : Type} {l : List (Nat × α)} {k : Nat} (h : aget l k = none) (x : α) : (k, x) ∉ l := by
+  induction l with
+  | nil => exact List.not_mem_nil
+  | cons kv rest ih =>
+    obtain ⟨k', v'⟩ := kv
+    unfold aget at h ih
+    by_cases hk : k = k'
+    · subst hk; simp at h
+    · have hb : (k == k') = false := by simpa using hk
+      simp only [List.lookup_cons, hb] at h
+      intro hm
+      rcases List.mem_cons.mp hm with heq | hin
+      · cases heq; exact hk rfl
+      · exact ih h hin
+
+theorem absCache_empty_of_mono {o : NextStatus} (h : CacheMono o {}) : absCache o = absCache {} := by
+  obtain ⟨h1, h2⟩ := h
+  obtain ⟨ob, op⟩ := o
+  simp only at h1 h2
+  have hb : ob = false := by cases ob; rfl; exact absurd (h1 rfl) (by decide)
+  have hp : op = 0 := by
+    rcases h2 with h2 | h2
+    · exact h2.symm
+    · exact absurd rfl h2
+  subst hb; subst hp; rfl
+
+/-- the `see` events of one record carry the abstract cache of period `q` from the old to the new concrete cache -/
+theorem seeOf_fold {n r q : Nat} {pre post : Root} (hm : CacheMono (cachedOf pre r q) (cachedOf post r q)) :
+    (seeOf n r pre post).foldl (cacheStep n q) (absCache (cachedOf pre r q)) = absCache (cachedOf post r q) := by
+  rw [seeOf_eq]
+  cases hv : viewAt post r q with
+  | some vw =>
+    obtain ⟨pr, hmem⟩ := viewAt_periodsOf hv
+    exact sees_old hm _ ⟨(q, pr), hmem, rfl⟩
+  | none =>
+    have hnew := cachedOf_none hv
+    have : ∀ (l : List (Nat × PeriodR)) (c : AgreementAbs.Cache), (∀ kv ∈ l, kv.1 ≠ q) →
+        (l.flatMap (fun kv => seeEvs n r pre post kv.1)).foldl (cacheStep n q) c = c := by
+      intro l
+      induction l with
+      | nil => intro c _; rfl
+      | cons kv rest ih =>
+        intro c hne
+        rw [List.flatMap_cons, List.foldl_append, seeEvs_other (hne kv List.mem_cons_self)]
+        exact ih c (fun kv' h' => hne kv' (List.mem_cons_of_mem _ h'))
+    rw [this]
+    · rw [hnew] at hm ⊢; exact absCache_empty_of_mono hm
+    · intro kv hkv hq
+      obtain ⟨k, pr⟩ := kv
+      simp only at hq; subst hq
+      -- a key of the period list has a view
+      unfold periodsOf at hkv
+      unfold viewAt at hv
+      cases hr : aget post.rounds r with
+      | none => rw [hr] at hkv; cases hkv
+      | some rr =>
+        rw [hr] at hkv hv
+        simp only [Option.bind_some] at hv
+        cases hp : aget rr.periods k with
+        | some pr' => rw [hp] at hv; cases hv
+        | none => exact absurd hkv (aget_none_not_mem hp pr)
+
+/-- the abstract cache of every period the router keeps (`q + 1 ≥ Period`) is the concrete cache -/
+def TrackC (n r : Nat) (H : List AgreementAbs.Ev) (σ : State) : Prop :=
+  ∀ q, σ.pl.period ≤ q + 1 → (AgreementAbs.nstate H n).cur.cache q = absCache (cachedOf σ.root r q)
+
+theorem trackC_step {n r : Nat} {H : List AgreementAbs.Ev} {x : Rec} (h1 : x.pre.pl.round = r) (h2 : x.post.pl.round = r)
+    (hper : x.pre.pl.period ≤ x.post.pl.period) (hc : CacheStepOK r x) (ht : TrackC n r H x.pre)
+    (B : List AgreementAbs.Ev) (hB : ∀ e ∈ B, (∀ m p y, e ≠ .see m p y) ∧ e ≠ .crash n) :
+    TrackC n r ((delivOf n r x.ev ++ seeOf n r x.pre.root x.post.root ++ B).reverse ++ H) x.post := by
+  intro q hq
+  have hnc : ∀ e ∈ delivOf n r x.ev ++ seeOf n r x.pre.root x.post.root ++ B, e ≠ .crash n := by
+    intro e he
+    simp only [List.mem_append] at he
+    rcases he with (he | he) | he
+    · obtain ⟨w, hw, _⟩ := mem_delivOf he; rw [hw]; intro hc'; cases hc'
+    · obtain ⟨q', y', hq'⟩ := mem_seeOf he; rw [hq']; intro hc'; cases hc'
+    · exact (hB e he).2
+  rw [nstate_append_rev, foldN_cache _ _ hnc, List.foldl_append, List.foldl_append]
+  rw [foldl_cacheStep_id (delivOf n r x.ev)]
+  · rw [ht q (Nat.le_trans hper hq), seeOf_fold (cacheStep_all hc h1 h2 q hq)]
+    exact foldl_cacheStep_id B _ (fun e he => (hB e he).1)
+  · intro e he m p y hc'
+    obtain ⟨w, hw, _⟩ := mem_delivOf he
+    rw [hw] at hc'; cases hc'
+
+theorem head_tail_ok (n r : Nat) (x : Rec) :
+    (∀ e ∈ enterOf n r x.pre x.post, (∀ m p y, e ≠ .see m p y) ∧ e ≠ .crash n) ∧
+    (∀ e ∈ enterOf n r x.pre x.post ++ ownOf n r x ++ x.acts.flatMap (commitOf n r),
+      (∀ m p y, e ≠ .see m p y) ∧ e ≠ .crash n) := by
+  have h1 : ∀ e ∈ enterOf n r x.pre x.post, (∀ m p y, e ≠ .see m p y) ∧ e ≠ .crash n := by
+    intro e he
+    obtain ⟨p', c, hq⟩ := mem_enterOf he
+    rw [hq]; exact ⟨fun _ _ _ hc => (by cases hc), fun hc => (by cases hc)⟩
+  refine ⟨h1, fun e he => ?_⟩
+  simp only [List.mem_append] at he
+  rcases he with (he | he) | he
+  · exact h1 e he
+  · unfold ownOf at he
+    obtain ⟨b, _, hb⟩ := List.mem_map.mp he
+    rw [← hb]; exact ⟨fun _ _ _ hc => (by cases hc), fun hc => (by cases hc)⟩
+  · obtain ⟨p', w, hq⟩ := mem_commitOf he
+    rw [hq]; exact ⟨fun _ _ _ hc => (by cases hc), fun hc => (by cases hc)⟩
+
+/-- **prevTracks_of_steps.**  Cache tracking at every own vote (`prevTracksFrom`, the hypothesis `hprev` of `player_okVote`)
+follows from the one-`handle` property `CacheStepOK` of the records of the run. -/
+theorem prevTracks_of_steps (P : Params) (good : Nat → Nat → Nat → Vote → Bool) (hg : GoodSpec good) (n r : Nat) :
+    ∀ (es : List Player.Event) (σ : State) (H : List AgreementAbs.Ev), NodeInv P good σ → RunOK P good σ es → RunOKA P σ es →
+    r ≤ σ.pl.round → (σ.pl.round = r → TrackC n r H σ) → (∀ x ∈ recs P σ es, CacheStepOK r x) →
+    prevTracksFrom n r H (recs P σ es) = true := by
+  intro es
+  induction es with
+  | nil => intro σ H _ _ _ _ _ _; rfl
+  | cons e rest ih =>
+    intro σ H hI hr hra hle ht hcs
+    simp only [recs] at hcs ⊢
+    split
+    · rfl
+    rename_i σ' as hh
+    rw [hh] at hcs
+    obtain ⟨hI', hst⟩ := handle_inv P good hg hI hr.1 hra.1 hh
+    have hle' : r ≤ σ'.pl.round := Nat.le_trans hle (lex_round hst.lex)
+    have hcx : CacheStepOK r ⟨σ, e, σ', as⟩ := hcs _ List.mem_cons_self
+    have hstep : σ'.pl.round = r → σ.pl.round = r ∧ σ.pl.period ≤ σ'.pl.period := by
+      intro hσ'
+      have := lex_round hst.lex
+      have hσ : σ.pl.round = r := by omega
+      refine ⟨hσ, ?_⟩
+      rcases hst.lex with h | ⟨_, h⟩
+      · omega
+      · exact h
+    simp only [prevTracksFrom, Bool.and_eq_true, List.all_eq_true]
+    refine ⟨?_, ih σ' _ hI' (hr.2 _ _ hh) (hra.2 _ _ hh) hle' ?_ (fun y hy => hcs y (List.mem_cons_of_mem _ hy))⟩
+    · intro b hb
+      obtain ⟨hbm, hbr⟩ := List.mem_filter.mp hb
+      rcases hst.att with hnil | ⟨b', hb', hr', hp', _⟩
+      · rw [hnil] at hbm; cases hbm
+      · rw [hb'] at hbm
+        simp only [List.mem_singleton] at hbm
+        subst hbm
+        have hσ' : σ'.pl.round = r := by rw [← hr']; simpa using hbr
+        obtain ⟨hσ, hper⟩ := hstep hσ'
+        have htr := trackC_step (x := ⟨σ, e, σ', as⟩) hσ hσ' hper hcx (ht hσ) _ (head_tail_ok n r ⟨σ, e, σ', as⟩).1
+        unfold prevLinkB
+        cases hv : viewAt σ'.root r (predPeriod b.p) with
+        | none => rfl
+        | some vw =>
+          simp only [decide_eq_true_eq]
+          have hcv : cachedOf σ'.root r (predPeriod b.p) = vw.cached := by unfold cachedOf; rw [hv]; rfl
+          unfold AgreementAbs.Local.prev
+          by_cases h0 : b.p = 0
+          · rw [if_pos h0, ← hcv, h0]
+            have := (hcx hσ hσ').2
+            show AgreementAbs.Cache.empty = absCache (cachedOf σ'.root r 18446744073709551615)
+            rw [this]; rfl
+          · have hpp : predPeriod b.p = b.p - 1 := by unfold predPeriod; rw [if_neg h0]
+            rw [if_neg h0, ← hcv, hpp]
+            exact htr (b.p - 1) (by show σ'.pl.period ≤ b.p - 1 + 1; omega)
+    · intro hσ'
+      obtain ⟨hσ, hper⟩ := hstep hσ'
+      have htr := trackC_step (x := ⟨σ, e, σ', as⟩) hσ hσ' hper hcx (ht hσ) _ (head_tail_ok n r ⟨σ, e, σ', as⟩).2
+      have heq : evsOf n r ⟨σ, e, σ', as⟩ = delivOf n r e ++ seeOf n r σ.root σ'.root ++
+          (enterOf n r σ σ' ++ ownOf n r ⟨σ, e, σ', as⟩ ++ as.flatMap (commitOf n r)) := by
+        rw [evsOf_eq]; unfold headOf; simp only [List.append_assoc]
+      rw [heq]; exact htr
+
+/-- the cache-tracking hypothesis of `player_votes_justified_partial` from `CacheStepOK` -/
+theorem prevTracks_fresh (P : Params) (good : Nat → Nat → Nat → Vote → Bool) (hg : GoodSpec good) (n r : Nat) (σ₀ : State)
+    (h0 : Fresh σ₀) (es : List Player.Event) (hr : RunOK P good σ₀ es) (hra : RunOKA P σ₀ es) (hr0 : σ₀.pl.round = r)
+    (hcs : ∀ x ∈ recs P σ₀ es, CacheStepOK r x) : prevTracksFrom n r [] (recs P σ₀ es) = true := by
+  refine prevTracks_of_steps P good hg n r es σ₀ [] (fresh_inv P good h0) hr hra (by omega) (fun _ q _ => ?_) hcs
+  have : cachedOf σ₀.root r q = {} := by
+    apply cachedOf_none
+    unfold viewAt
+    rw [h0.1]; rfl
+  rw [this]; rfl
+
+/-- **player_votes_justified** (fresh node, the round it starts in, no crash).  Every own event of `projFull` — vote, `see`,
+`enter`, `commit` — is allowed by the abstract local rules w.r.t. the history before it.  `hprev` of
+`player_votes_justified_partial` is replaced by the one-`handle` property `CacheStepOK` of the run's records (decidable; the
+relational pass that proves it for every `handle` is not done); `hcause` remains. -/
+theorem player_votes_justified (P : Params) (base : Nat → Nat → Nat → Vote → Bool) (hg : GoodSpec base) (σ₀ : State)
+    (h0 : Fresh σ₀) (es : List Player.Event) (henv : EnvOK P base σ₀ es) (hpf : PeriodsFit (snaps P σ₀ es))
+    (Pabs : AgreementAbs.Params) (hT : 0 < Pabs.T) (n r : Nat) (hr0 : σ₀.pl.round = r) (hp0 : σ₀.pl.period = 0)
+    (hthr : ∀ s, s ≠ 0 → Pabs.T ≤ stepT P s)
+    (hnodes : ∀ p s a, goodIn base es r p s a = true →
+      a.sender ∈ Pabs.nodes ∧ Pabs.w a.sender = a.weight ∧ a.sender ≠ n)
+    (hcs : ∀ x ∈ recs P σ₀ es, CacheStepOK r x)
+    (hcause : ∀ post pre m p c, projFull P n r σ₀ es = post ++ AgreementAbs.Ev.enter m p c :: pre →
+      AgreementAbs.REnterCause Pabs pre m p c) :
+    ∀ post e pre, projFull P n r σ₀ es = post ++ e :: pre →
+      (∀ v, e = .vote v → v.n = n) → AgreementAbs.okEv true Pabs pre e :=
+  player_votes_justified_partial P base hg σ₀ h0 es henv hpf Pabs hT n r hr0 hp0 hthr hnodes
+    (prevTracks_fresh P base hg n r σ₀ h0 es henv.run henv.runA hr0 hcs) hcause
+
+/-- `CacheStepOK` holds on the example runs -/
+example : (∀ x ∈ recs Props.C03.exP Props.C03.exInit exEvents, CacheStepOK 5 x) ∧
+    (∀ x ∈ recs Props.C03.exP Props.C03.exInit dropEvents, CacheStepOK 5 x) := ⟨by decide, by decide⟩
+
+/-! ### several PlayerM nodes and one global history ⇒ `WF` ⇒ agreement (C01)
+
+Scope: every honest node is a fresh PlayerM node that starts in round `r`; only round `r` is projected; no crash events.
+The global history `h` contains the own events of the honest nodes (in the order they happened) and arbitrary events of
+Byzantine nodes; `Consistent n (projFull …) h` (executable: `consistentB`) says that `h` restricted to node `n` is `n`'s
+projected run and that every vote delivered to `n` before one of its events was cast in `h` before that event. -/
+
+section Global
+open AlgoVerif.Lemmas.PlayerAttestGlobal
+
+/-- what `player_votes_justified` asks of one node's run -/
+structure NodeRun (P : Params) (base : Nat → Nat → Nat → Vote → Bool) (Pabs : AgreementAbs.Params) (r n : Nat)
+    (σ₀ : State) (es : List Player.Event) : Prop where
+  fresh : Fresh σ₀
+  env : EnvOK P base σ₀ es
+  fit : PeriodsFit (snaps P σ₀ es)
+  round : σ₀.pl.round = r
+  period : σ₀.pl.period = 0
+  nodes : ∀ p s a, goodIn base es r p s a = true → a.sender ∈ Pabs.nodes ∧ Pabs.w a.sender = a.weight ∧ a.sender ≠ n
+  cacheStep : ∀ x ∈ recs P σ₀ es, CacheStepOK r x
+  cause : ∀ post pre m p c, projFull P n r σ₀ es = post ++ AgreementAbs.Ev.enter m p c :: pre →
+    AgreementAbs.REnterCause Pabs pre m p c
+
+/-- executable form of `NodeRun.cause` -/
+def causeOKB (Pabs : AgreementAbs.Params) (hl : List AgreementAbs.Ev) : Bool :=
+  (splits hl).all (fun x => match x.1 with
+    | .enter m p c => decide (AgreementAbs.REnterCause Pabs x.2 m p c)
+    | _ => true)
+
+theorem causeOKB_sound {Pabs : AgreementAbs.Params} {hl : List AgreementAbs.Ev} (h : causeOKB Pabs hl = true) :
+    ∀ post pre m p c, hl = post ++ AgreementAbs.Ev.enter m p c :: pre → AgreementAbs.REnterCause Pabs pre m p c := by
+  intro post pre m p c hs
+  have := List.all_eq_true.mp h (_, pre) (mem_splits.2 ⟨post, hs⟩)
+  simpa using this
+
+/-- the node's own events in its projected run obey the local rules -/
+theorem player_localOK (P : Params) (base : Nat → Nat → Nat → Vote → Bool) (hg : GoodSpec base)
+    (Pabs : AgreementAbs.Params) (hT : 0 < Pabs.T) (r : Nat) (hthr : ∀ s, s ≠ 0 → Pabs.T ≤ stepT P s) (n : Nat)
+    (σ₀ : State) (es : List Player.Event) (hn : NodeRun P base Pabs r n σ₀ es) :
+    LocalOK Pabs n (projFull P n r σ₀ es) := by
+  intro post e pre hs ho
+  exact player_votes_justified P base hg σ₀ hn.fresh es hn.env hn.fit Pabs hT n r hn.round hn.period hthr hn.nodes
+    hn.cacheStep hn.cause post e pre hs (fun v hv => by subst hv; exact ho)
+
+/-- **players_wf.**  Honest nodes that are PlayerM runs, consistent with one global history `h`: `h` is well formed. -/
+theorem players_wf (P : Params) (base : Nat → Nat → Nat → Vote → Bool) (hg : GoodSpec base)
+    (Pabs : AgreementAbs.Params) (hT : 0 < Pabs.T) (r : Nat) (hthr : ∀ s, s ≠ 0 → Pabs.T ≤ stepT P s)
+    (init : Nat → State) (evs : Nat → List Player.Event) (h : List AgreementAbs.Ev)
+    (hrun : ∀ n, Pabs.honest n = true → NodeRun P base Pabs r n (init n) (evs n))
+    (hcons : ∀ n, Pabs.honest n = true → Consistent n (projFull P n r (init n) (evs n)) h) :
+    AgreementAbs.WF true Pabs h :=
+  global_wf (fun n => projFull P n r (init n) (evs n)) hcons
+    (fun n hn => player_localOK P base hg Pabs hT r hthr n (init n) (evs n) (hrun n hn))
+
+/-- **players_agree** (C01 for PlayerM nodes).  Under the quorum hypothesis, all `commit` events of honest PlayerM nodes in
+the global history of the round carry one value. -/
+theorem players_agree (P : Params) (base : Nat → Nat → Nat → Vote → Bool) (hg : GoodSpec base)
+    (Pabs : AgreementAbs.Params) (hq : AgreementAbs.HQ Pabs) (hT : 0 < Pabs.T) (r : Nat)
+    (hthr : ∀ s, s ≠ 0 → Pabs.T ≤ stepT P s)
+    (init : Nat → State) (evs : Nat → List Player.Event) (h : List AgreementAbs.Ev)
+    (hrun : ∀ n, Pabs.honest n = true → NodeRun P base Pabs r n (init n) (evs n))
+    (hcons : ∀ n, Pabs.honest n = true → Consistent n (projFull P n r (init n) (evs n)) h)
+    {n n' p p' v v' : Nat} (hn : Pabs.honest n = true) (hn' : Pabs.honest n' = true)
+    (h1 : AgreementAbs.Ev.commit n p v ∈ h) (h2 : AgreementAbs.Ev.commit n' p' v' ∈ h) : v = v' :=
+  Props.C01.commit_unique hq (players_wf P base hg Pabs hT r hthr init evs h hrun hcons) hn hn' h1 h2
+
+/-! #### example: three honest PlayerM nodes (3, 4, 5; weight 4 each) and a Byzantine sender (2; weight 1), threshold 9.
+(With the own vote not looped back — `NodeRun.nodes` — an honest node needs the other nodes' weight for a quorum, so the
+quorum hypothesis `W + F < 2T` needs three honest nodes.)  Node 2 equivocates: it cert-votes 52 to node 5 and 51 to all. -/
+
+def exP4 : Params := ⟨9, 9, 9, 9, 9, 9, true, 2000, 4000, 4000, 6000, 2000, 300000, 8⟩
+def exGood4 : Nat → Nat → Nat → Vote → Bool := fun _ _ _ a => a.weight == (if a.sender == 2 then 1 else 4)
+def exInit4 : State := { pl := { round := 5, deadlineDur := 2000 }, root := {} }
+/-- proposal-vote 51, filter timeout (soft vote), payload, soft votes of the others (4 + 4 + 1 ≥ 9 ⇒ cert vote), `extra`,
+cert votes of the others (⇒ commit) -/
+def nodeEvents (y z : Nat) (extra : List Player.Event) : List Player.Event :=
+  [.pvote true 0 ⟨9, 5, 0, 51, 3⟩ 0 none, .timeout 0, .payload true 0 ⟨51, 5⟩ false,
+   .vote true 0 5 0 1 ⟨y, 4, 51⟩, .vote true 0 5 0 1 ⟨z, 4, 51⟩, .vote true 0 5 0 1 ⟨2, 1, 51⟩] ++ extra ++
+  [.vote true 0 5 0 2 ⟨y, 4, 51⟩, .vote true 0 5 0 2 ⟨z, 4, 51⟩, .vote true 0 5 0 2 ⟨2, 1, 51⟩]
+def exEvs (n : Nat) : List Player.Event :=
+  if n = 3 then nodeEvents 4 5 [] else if n = 4 then nodeEvents 3 5 [] else nodeEvents 3 4 [.vote true 0 5 0 2 ⟨2, 1, 52⟩]
+def exPabs4 : AgreementAbs.Params :=
+  ⟨[2, 3, 4, 5], fun a => if a = 2 then 1 else 4, fun a => a == 3 || a == 4 || a == 5, 9⟩
+/-- the global history (newest first) -/
+def exGlobal : List AgreementAbs.Ev :=
+  [.commit 5 0 51, .commit 4 0 51, .commit 3 0 51,
+   .vote ⟨2, 0, .cert, some 51⟩, .vote ⟨2, 0, .cert, some 52⟩,
+   .vote ⟨5, 0, .cert, some 51⟩, .vote ⟨4, 0, .cert, some 51⟩, .vote ⟨3, 0, .cert, some 51⟩,
+   .vote ⟨2, 0, .soft, some 51⟩, .vote ⟨5, 0, .soft, some 51⟩, .vote ⟨4, 0, .soft, some 51⟩, .vote ⟨3, 0, .soft, some 51⟩]
+
+theorem exGood4_spec : GoodSpec exGood4 where
+  pos := by intro r p s a h; simp only [exGood4, beq_iff_eq] at h; rw [h]; split <;> omega
+  cons := by intro r p s a b ha hb hs; simp only [exGood4, beq_iff_eq] at ha hb; rw [ha, hb, hs]
+
+theorem exThr4 : ∀ s, s ≠ 0 → exPabs4.T ≤ stepT exP4 s := by
+  intro s hs
+  unfold stepT
+  repeat' split
+  all_goals first | omega | decide
+
+theorem exNodeRun (n : Nat) (hn : n = 3 ∨ n = 4 ∨ n = 5) : NodeRun exP4 exGood4 exPabs4 5 n exInit4 (exEvs n) := by
+  rcases hn with rfl | rfl | rfl
+  all_goals exact
+    { fresh := ⟨rfl, rfl, rfl⟩
+      env := envOKb_sound _ _ _ _ (by decide)
+      fit := by decide
+      round := rfl
+      period := rfl
+      nodes := eventFit_sound _ _ _ _ _ (by decide)
+      cacheStep := by decide
+      cause := causeOKB_sound (by decide) }
+
+theorem exHonest4 {n : Nat} (hn : exPabs4.honest n = true) : n = 3 ∨ n = 4 ∨ n = 5 := by
+  simp only [exPabs4, Bool.or_eq_true, beq_iff_eq] at hn
+  rcases hn with (h | h) | h
+  · exact Or.inl h
+  · exact Or.inr (Or.inl h)
+  · exact Or.inr (Or.inr h)
+
+/-- every hypothesis of `players_agree` holds here (the consistency of each node's run with `exGlobal` by evaluation) … -/
+theorem exGlobal_wf : AgreementAbs.WF true exPabs4 exGlobal :=
+  players_wf exP4 exGood4 exGood4_spec exPabs4 (by decide) 5 exThr4 (fun _ => exInit4) exEvs exGlobal
+    (fun n hn => exNodeRun n (exHonest4 hn))
+    (fun n hn => by
+      rcases exHonest4 hn with rfl | rfl | rfl <;> exact consistentB_sound (by decide))
+
+/-- … the quorum hypothesis too, and the three nodes commit (the same value, by `players_agree`) -/
+example : AgreementAbs.HQ exPabs4 ∧ AgreementAbs.commits exPabs4 exGlobal = [(5, 0, 51), (4, 0, 51), (3, 0, 51)] ∧
+    AgreementAbs.wfCheck true exPabs4 exGlobal = true := ⟨by decide, by decide, by decide⟩
+
+/-- the consistency predicate is not vacuous: a global history in which node 3's cert vote precedes the soft votes that
+justified it at node 3 is rejected -/
+example : consistentB 3 (projFull exP4 3 5 exInit4 (exEvs 3))
+    [.vote ⟨3, 0, .cert, some 51⟩, .vote ⟨3, 0, .soft, some 51⟩] = false := by decide
+
+end Global
 
 end Props.C01PlayerWF
